@@ -523,14 +523,18 @@ package larking
 // http.go: the HTTP stream reader. s.rbuf carries the bytes read beyond the
 // last message; Buffered(s.rbuf, s.r, .) is the invariant between calls. b is
 // the pooled message buffer (assumed not to alias s.rbuf: pool exclusivity).
+//@ spec Window(m, r, g) = forall x :: off(m) <= x && x < off(m) + len(m) ==> raw(m)[x] == rdS(r)[x - off(m) + g]
 //@ func (*streamHTTP).readMsg serves C06 C08 C09
 //@   returns (count, msg, err)
 //@   ghost g = rdpos(s.r) - len(s.rbuf)
 //@   requires s != nil && s.method != nil && s.method.desc != nil && s.r != nil && c != nil
 //@   requires Buffered(s.rbuf, s.r, g) && len(b) == 0 && s.opts.maxReceiveMessageSize > 0
-//@   requires cap(b) == 0 || base(b) != base(s.rbuf)
+//@   requires base(b) == 0 || base(b) != base(s.rbuf)
 //@   witness verifWitnessReadMsg
 //@   modifies F$streamHTTP.recvCount, F$streamHTTP.rEOF, F$streamHTTP.rbuf, E$uint8, G$rd.pos
+//@   assert at "s.rbuf = append(s.rbuf[:0], b[n:]...)" [frame-read] err#1 == nil || err#1 == io.EOF ==> Window(b#2, s.r, rdpos(s.r) - len(b#2))
+//@   assert at "s.rbuf = append(s.rbuf[:0], b[n:]...)" [disjoint] base(b#2) != base(s.rbuf) || base(b#2) == 0
+//@   assert at "if err == io.EOF {" [carry-stored] (err#1 == nil || err#1 == io.EOF ==> Window(b#2, s.r, rdpos(s.r) - len(b#2))) && len(s.rbuf) == len(b#2) - n
 //@   ensures [latched] old(s.rEOF) ==> err == io.EOF && len(msg) == 0
 //@   ensures [size] err == nil ==> len(msg) <= s.opts.maxReceiveMessageSize
 //@   ensures [no-phantom C06] at "return count, b[:n], err" s.rEOF && !old(s.rEOF) && err == nil ==> len(msg) > 0
